@@ -31,6 +31,8 @@ DTYPE_NAME = {'int64': 'i', 'float64': 'f', 'complex128': 'c'}
 # ------------------------------------------------------------------------------------------------
 MOD_CHOICES = [(1,), (2,), (3,), (1, 2), (1, 1), (2, 3), (4,), (1, 3, 2), (1,), (1, 2)]
 NAME_POOL = ['N', 'P', 'Sz', 'Q']
+PROFILE_MODS = {0: [(1, 3), (1, 2), (3, 1), (1, 1)], 1: [(2, 3), (1, 2), (4,), (1, 3, 2)], 2: [(1, 2), (1,), (2, 3), (1, 4)],
+                3: [(1,), (4, 1), (2,), (1, 3, 2)]}
 
 
 def _allowed(mods, legs, qtotal):
@@ -47,7 +49,9 @@ def rand_config(rng, idx, max_size=36):
     """One catalogue configuration: three tensors that enable different groups of operations (profile = idx % 4)."""
     profile = idx % 4
     for _ in range(400):
-        mods = rng.choice(MOD_CHOICES)
+        # the first configurations (the ones searched exhaustively in the quick tier) always have several charges of
+        # different kinds, so that dropping / changing / adding one charge is distinguishable from doing it to another
+        mods = rng.choice(PROFILE_MODS[profile]) if idx < 8 else rng.choice(MOD_CHOICES)
         names = rng.sample(NAME_POOL, len(mods))
         if rng.random() < 0.3:
             names[rng.randrange(len(names))] = ''
@@ -751,8 +755,8 @@ def canon_equal(ra, rb):
 # ------------------------------------------------------------------------------------------------
 TIERS = {
     # sim_num is per TLC worker (workers // 2 of them simulate while the others run the exhaustive search)
-    'quick': dict(n_configs=4, mc_configs=1, mc_ops=1, sim_num=15, sim_ops=6, workers=4, timeout=600, max_size=24),
-    'thorough': dict(n_configs=32, mc_configs=8, mc_ops=1, sim_num=400, sim_ops=8, workers=4, timeout=1500, max_size=36),
+    'quick': dict(n_configs=4, mc_configs=4, mc_ops=1, sim_num=20, sim_ops=6, workers=4, timeout=600, max_size=24),
+    'thorough': dict(n_configs=32, mc_configs=12, mc_ops=1, sim_num=250, sim_ops=8, workers=4, timeout=1500, max_size=36),
 }
 
 
@@ -801,8 +805,11 @@ def run_phase(ctx, prop, tier=None, seed_offset=0):
         inp = os.path.join(d, 'behaviours.json')
         with open(inp, 'w') as f:
             json.dump([tlaval.to_jsonable(b) for b in behs], f)
-        ra = _run_config(core, inp, os.path.join(d, 'pure.json'), pure=True)
-        rb = _run_config(core, inp, os.path.join(d, 'compiled.json'), pure=False)
+        from concurrent.futures import ThreadPoolExecutor
+        with ThreadPoolExecutor(max_workers=2) as ex:       # the two interpreter configurations run side by side
+            fa_ = ex.submit(_run_config, core, inp, os.path.join(d, 'pure.json'), True)
+            fb_ = ex.submit(_run_config, core, inp, os.path.join(d, 'compiled.json'), False)
+            ra, rb = fa_.result(), fb_.result()
     finally:
         shutil.rmtree(d, ignore_errors=True)
     so = os.environ.get('VERIF_SO')
